@@ -8,6 +8,7 @@ from harness import compat  # noqa: F401
 import numpy as np
 from distance3d import containment_test as ct, mesh
 from harness.impl.c03 import build, pose4, arr, fl
+from harness.impl import shapes_trace as st
 
 
 def predicate(sh, pts):
@@ -92,8 +93,11 @@ def run_case(case):
 
 def main():
     payload = json.load(open(sys.argv[1]))
-    res = [run_case(c) for c in payload["cases"]]
-    json.dump(dict(results=res), open(sys.argv[2], "w"))
+    tracer = st.LineTracer([ct.__file__])
+    with tracer:
+        res = [run_case(c) for c in payload["cases"]]
+    hits = {k.split("/")[-1]: v for k, v in tracer.result().items()}
+    json.dump(dict(results=res, line_hits=hits), open(sys.argv[2], "w"))
 
 
 if __name__ == "__main__":
